@@ -129,7 +129,12 @@ Section Hole.
            h_depth := Some (repeat None nv ++ map (@Some Q) depth);
            h_vdata := pad_all n (h_vdata h) ++ [(name, repeat None nv ++ values)];
            h_cells := h_cells h; h_ft := h_ft h; h_cdata := h_cdata h |}
-    | Some dv =>
+    | Some dv0 =>
+        (* repaired (fixes/C18-depth-after-interval-misaligned.patch): self.depths.format_values(self.depths.values), i.e.
+           DEPTH padded with NaN to the current number of vertices (vertices appended by an interval data set of the
+           same add_data call have no DEPTH entry yet); the unrepaired code used the shorter cached array and wrote
+           the new depths next to the wrong vertices *)
+        let dv := pad nv dv0 in
         let mapping := match_values dv depth tol in
         let new_depth := unmatched mapping depth in
         let verts := h_verts h ++ map pos new_depth in
@@ -217,12 +222,17 @@ Section Hole.
   | AddDepth (name : nat) (depth : list Q) (values : list oq) (tol : Q)
   | AddInterval (name : nat) (fts : list (Q * Q)) (values : list oq) (tol : Q).
 
-  (* one add_data call: validate + create the child, then sort_depths *)
-  Definition hstep (h : hole) (op : hop) : hole :=
+  (* one entry of the dictionary given to add_data: validate + create the child *)
+  Definition happly (h : hole) (op : hop) : hole :=
     match op with
-    | AddDepth k d v tol => sort_depths (add_depth h k d v tol)
-    | AddInterval k ft v tol => sort_depths (add_interval h k ft v tol)
+    | AddDepth k d v tol => add_depth h k d v tol
+    | AddInterval k ft v tol => add_interval h k ft v tol
     end.
+  (* one add_data call with several data sets: every entry in turn, then sort_depths ONCE *)
+  Definition hcall (h : hole) (subs : list hop) : hole := sort_depths (fold_left happly subs h).
+  Definition hrunc (h : hole) (calls : list (list hop)) : hole := fold_left hcall calls h.
+  (* the single-data-set call *)
+  Definition hstep (h : hole) (op : hop) : hole := hcall h [op].
   Definition hrun (h : hole) (ops : list hop) : hole := fold_left hstep ops h.
 
   (* ---- what is compared with the implementation (independent of the order of tied vertices) ---- *)
@@ -292,22 +302,13 @@ Fixpoint distinct_depths (v : list oq) : bool :=
 Definition pos_exact (collar : V3) (s : list (Q * azdip)) (d : Q) : V3 :=
   match desurvey dir_exact collar s d with Some p => p | None => vzero end.
 
-(* after each op: the vertex rows (as a multiset) and the cell rows (in order) *)
-Fixpoint hole_agree (collar : V3) (s : list (Q * azdip)) (h : hole) (ops : list hop)
+(* after each add_data call: the vertex rows (as a multiset) and the cell rows (in order) *)
+Fixpoint hole_agree (collar : V3) (s : list (Q * azdip)) (h : hole) (calls : list (list hop))
          (obs : list (list vrow * list crow)) : bool :=
-  match ops, obs with
+  match calls, obs with
   | [], [] => true
-  | op :: r, (ov, oc) :: ro =>
-      let h' := hstep (pos_exact collar s) h op in
+  | c :: r, (ov, oc) :: ro =>
+      let h' := hcall (pos_exact collar s) h c in
       perm_eqb vrow_eqb (vrows h') ov && list_eqb crow_eqb (crows h') oc && hole_agree collar s h' r ro
   | _, _ => false
-  end.
-
-(* the histories the model can speak about: vertex depths stay pairwise distinct *)
-Fixpoint hole_expressible (collar : V3) (s : list (Q * azdip)) (h : hole) (ops : list hop) : bool :=
-  match ops with
-  | [] => true
-  | op :: r =>
-      let h' := hstep (pos_exact collar s) h op in
-      match h_depth h' with Some dv => distinct_depths dv | None => true end && hole_expressible collar s h' r
   end.
